@@ -211,6 +211,7 @@ impl<R: Read + Seek> ReadBox<&mut R> for EsdsBox {
         let end = start + size;
         while current < end {
             let (desc_tag, desc_size) = read_desc(reader)?;
+            let desc_size = clamp_desc_size(reader, desc_size, end)?;
             match desc_tag {
                 0x03 => {
                     es_desc = Some(ESDescriptor::read_desc(reader, desc_size)?);
@@ -254,6 +255,13 @@ trait Descriptor: Sized {
 
 trait ReadDesc<T>: Sized {
     fn read_desc(_: T, size: u32) -> Result<Self>;
+}
+
+/// A descriptor cannot extend beyond the descriptor (or box) that contains it:
+/// limit its size to the bytes that are left before `end`.
+fn clamp_desc_size<R: Seek>(reader: &mut R, desc_size: u32, end: u64) -> Result<u32> {
+    let pos = reader.stream_position()?;
+    Ok(std::cmp::min(desc_size as u64, end.saturating_sub(pos)) as u32)
 }
 
 trait WriteDesc<T>: Sized {
@@ -351,6 +359,7 @@ impl<R: Read + Seek> ReadDesc<&mut R> for ESDescriptor {
         let end = start + size as u64;
         while current < end {
             let (desc_tag, desc_size) = read_desc(reader)?;
+            let desc_size = clamp_desc_size(reader, desc_size, end)?;
             match desc_tag {
                 0x04 => {
                     dec_config = Some(DecoderConfigDescriptor::read_desc(reader, desc_size)?);
@@ -444,6 +453,7 @@ impl<R: Read + Seek> ReadDesc<&mut R> for DecoderConfigDescriptor {
         let end = start + size as u64;
         while current < end {
             let (desc_tag, desc_size) = read_desc(reader)?;
+            let desc_size = clamp_desc_size(reader, desc_size, end)?;
             match desc_tag {
                 0x05 => {
                     dec_specific = Some(DecoderSpecificDescriptor::read_desc(reader, desc_size)?);
